@@ -95,8 +95,8 @@ def build(repo, d, log):
     gen = os.path.join(d, 'gen')
     os.makedirs(gen, exist_ok=True)
     sh([sys.executable, os.path.join(HERE, 'gen_entries.py'), facts_path, gen, str(NSHARDS)], 'gen-entries')
-    sh([sys.executable, os.path.join(HERE, 'gen_tables.py'), facts_path, os.path.join(gen, 'tables_main.cpp')],
-       'gen-tables')
+    sh([sys.executable, os.path.join(HERE, 'gen_tables.py'), facts_path, os.path.join(gen, 'tables_main.cpp'),
+        os.path.join(gen, 'entries_index.json'), os.path.join(gen, 'layout_main.cpp')], 'gen-tables')
     syminc = prepare_model_headers(repo, d)
     cxx = ['g++', '-std=c++17', '-O0', '-w', '-I', HERE, '-I', syminc]
     jobs = []
@@ -107,6 +107,8 @@ def build(repo, d, log):
                  'compile-tracer-main'))
     jobs.append((['g++', '-std=c++17', '-O0', '-w', '-I', inc, os.path.join(gen, 'tables_main.cpp'), '-o',
                   os.path.join(d, 'tables')], 'compile-tables'))
+    jobs.append((['g++', '-std=c++17', '-O0', '-w', '-I', inc, os.path.join(gen, 'layout_main.cpp'), '-o',
+                  os.path.join(d, 'layout')], 'compile-layout'))
     errors = []
 
     def run(job):
@@ -124,6 +126,7 @@ def build(repo, d, log):
        [os.path.join(d, 'e%02d.o' % i) for i in range(NSHARDS)], 'link-tracer')
     tables = sh([os.path.join(d, 'tables')], 'run-tables')
     open(os.path.join(d, 'tables.json'), 'w').write(tables)
+    open(os.path.join(d, 'layout.json'), 'w').write(sh([os.path.join(d, 'layout')], 'run-layout'))
     sys.path.insert(0, HERE)
     import explore
     facts = json.load(open(facts_path))
